@@ -9,6 +9,7 @@
 // Oracle = answer of each operation equals the answer given in the initial state (a fresh copy), the caller's pattern
 //          buffer is byte-identical after the call, interleaved drains equal solo drains.
 #include "scope.hpp"
+#include <atomic>
 
 extern "C" const char *__asan_default_options() {
   return "halt_on_error=0:detect_leaks=0:strict_memcmp=0:strict_string_checks=0:symbolize=0:print_summary=0:"
@@ -21,14 +22,19 @@ extern "C" int __sanitizer_install_malloc_and_free_hooks(void (*)(const volatile
 struct Blk { const void *p; size_t n; bool live; };
 static std::vector<Blk> TRACK;          // blocks allocated while tracking was on (object construction)
 static bool TRACKING = false;
-static bool IN_HOOK = false;
+static thread_local bool IN_HOOK = false;
+// the block constructor allocates from its worker threads while the producer allocates too: the table is guarded by a spin lock
+static std::atomic_flag TRACK_LOCK = ATOMIC_FLAG_INIT;
+struct TrackGuard { TrackGuard() { while (TRACK_LOCK.test_and_set(std::memory_order_acquire)) {} } ~TrackGuard() { TRACK_LOCK.clear(std::memory_order_release); } };
 static void mhook(const volatile void *p, size_t n) {
   if (n <= (8u << 20)) memset((void *)p, 0xA5, n);
-  if (TRACKING && !IN_HOOK) { IN_HOOK = true; TRACK.push_back({(const void *)p, n, true}); IN_HOOK = false; }
+  if (TRACKING && !IN_HOOK) { IN_HOOK = true; { TrackGuard g; TRACK.push_back({(const void *)p, n, true}); } IN_HOOK = false; }
 }
 static void fhook(const volatile void *p) {
-  if (IN_HOOK || TRACK.empty()) return;
-  for (auto &b : TRACK) if (b.p == (const void *)p && b.live) { b.live = false; break; }
+  if (IN_HOOK) return;
+  IN_HOOK = true;
+  { TrackGuard g; for (auto &b : TRACK) if (b.p == (const void *)p && b.live) { b.live = false; break; } }
+  IN_HOOK = false;
 }
 static uint64_t image_hash() {
   uint64_t h = 1469598103934665603ULL;
